@@ -265,12 +265,11 @@ Proof.
   intros d1 Hs1. unfold dep_dropfk. rewrite Hp. apply deps_add_in. exact Hs1.
 Qed.
 
-Lemma isDropped_iff cs t : isDropped cs t = true <-> In (t_name t) (flat_map drops cs).
+(* isDropped goes by T.Name alone: a dropped table (schema, name) makes every table of that name "dropped" *)
+Lemma isDropped_qn cs t : In (qn t) (flat_map drops cs) -> isDropped cs t = true.
 Proof.
-  unfold isDropped. rewrite existsb_exists, in_drops_iff. split.
-  - intros [x [Hx H]]. destruct x as [|t' fks|]; try discriminate.
-    apply Nat.eqb_eq in H. exists t', fks. split; assumption.
-  - intros [t' [fks [Hx H]]]. exists (DropTable t' fks). split; [exact Hx|]. apply Nat.eqb_eq. exact H.
+  unfold isDropped. rewrite existsb_exists, in_drops_iff.
+  intros [t' [fks [Hx H]]]. exists (DropTable t' fks). split; [exact Hx|]. apply Nat.eqb_eq. apply qn_name. exact H.
 Qed.
 
 (** * Well-formed change sets and consistent catalogues *)
@@ -288,11 +287,11 @@ Record WF (cs : list change) : Prop := {
   wf_names : NoDup (map nm cs);
   (* a foreign key that references the very object of its change references that table (ids determine names) *)
   wf_ptr : forall x f, In x cs -> In f (change_fks x) ->
-             ptr_eqb (f_ref f) (table_of x) = true -> t_name (f_ref f) = nm x;
+             ptr_eqb (f_ref f) (table_of x) = true -> qn (f_ref f) = nm x;
   (* the child table recorded in a foreign key of a dropped table is that table *)
-  wf_child : forall t fks f, In (DropTable t fks) cs -> In f fks -> t_name (f_tab f) = t_name t;
+  wf_child : forall t fks f, In (DropTable t fks) cs -> In f fks -> qn (f_tab f) = qn t;
   (* a declared foreign key points at a desired-state table: not at one the change set drops *)
-  wf_decl : forall x f, In x cs -> In f (added_fks x) -> ~ In (t_name (f_ref f)) (flat_map drops cs);
+  wf_decl : forall x f, In x cs -> In f (added_fks x) -> ~ In (qn (f_ref f)) (flat_map drops cs);
   (* the keys of a dropped table have distinct symbols; a ModifyTable drops / re-points a symbol at most once *)
   wf_rm : forall x, In x cs ->
             match x with
@@ -306,17 +305,17 @@ Record WF (cs : list change) : Prop := {
 Definition covers (x : change) (e : nat * nat * nat) : Prop :=
   match x with
   | AddTable _ _ => False
-  | DropTable _ fks => exists f, In f fks /\ f_sym f = snd (fst e) /\ t_name (f_ref f) = snd e
+  | DropTable _ fks => exists f, In f fks /\ f_sym f = snd (fst e) /\ qn (f_ref f) = snd e
   | ModifyTable _ tcs => existsb (tc_removes (snd (fst e))) tcs = true
   end.
 
 Record consistent (c : cat) (cs : list change) : Prop := {
   cn_adds : forall n, In n (flat_map adds cs) -> ~ In n (c_tabs c);
   cn_drops : forall n, In n (flat_map drops cs) -> In n (c_tabs c);
-  cn_mods : forall t tcs, In (ModifyTable t tcs) cs -> In (t_name t) (c_tabs c);
+  cn_mods : forall t tcs, In (ModifyTable t tcs) cs -> In (qn t) (c_tabs c);
   (* the parent of a declared foreign key exists or is created by the change set *)
   cn_parent : forall x f, In x cs -> In f (added_fks x) ->
-                In (t_name (f_ref f)) (c_tabs c) \/ In (t_name (f_ref f)) (flat_map adds cs);
+                In (qn (f_ref f)) (c_tabs c) \/ In (qn (f_ref f)) (flat_map adds cs);
   (* every live foreign key from another table to a dropped table is dropped by the change set *)
   cn_live : forall e, In e (c_fks c) -> In (snd e) (flat_map drops cs) -> fst (fst e) <> snd e ->
               exists x, In x cs /\ nm x = fst (fst e) /\ covers x e;
@@ -324,8 +323,8 @@ Record consistent (c : cat) (cs : list change) : Prop := {
   cn_rm_live : forall x, In x cs ->
                  match x with
                  | AddTable _ _ => True
-                 | DropTable t fks => forall f, In f fks -> exists p, In (t_name t, f_sym f, p) (c_fks c)
-                 | ModifyTable t tcs => forall s, In s (flat_map tc_rm tcs) -> exists p, In (t_name t, s, p) (c_fks c)
+                 | DropTable t fks => forall f, In f fks -> exists p, In (qn t, f_sym f, p) (c_fks c)
+                 | ModifyTable t tcs => forall s, In s (flat_map tc_rm tcs) -> exists p, In (qn t, s, p) (c_fks c)
                  end
 }.
 
@@ -447,10 +446,10 @@ Proof.
 Qed.
 
 (** * Shared facts *)
-Lemma refTo_ex fks t : refTo fks t = true -> exists f, In f fks /\ t_name (f_ref f) = t_name t.
+Lemma refTo_ex fks t : refTo fks t = true -> exists f, In f fks /\ qn (f_ref f) = qn t.
 Proof.
   unfold refTo. rewrite existsb_exists. intros [f [Hf H]]. exists f. split; [exact Hf|].
-  apply Nat.eqb_eq. exact H.
+  apply same_table_qn. exact H.
 Qed.
 
 Lemma added_sub_change x f : In f (added_fks x) -> In f (change_fks x).
@@ -476,7 +475,7 @@ Section WithWF.
   Lemma names_inj a b : In a cs -> In b cs -> nm a = nm b -> a = b.
   Proof. apply NoDup_map_inj. apply (wf_names cs HWF). Qed.
 
-  Lemma ptr_false x f : In x cs -> In f (change_fks x) -> t_name (f_ref f) <> nm x ->
+  Lemma ptr_false x f : In x cs -> In f (change_fks x) -> qn (f_ref f) <> nm x ->
     ptr_eqb (f_ref f) (table_of x) = false.
   Proof.
     intros Hx Hf Hn. destruct (ptr_eqb (f_ref f) (table_of x)) eqn:E; [|reflexivity].
@@ -535,7 +534,7 @@ Section WithWF.
     Qed.
 
     (* a declared foreign key to another table of the change set: the parent has a smaller index *)
-    Lemma decl_key_lt x f : In x cs -> In f (added_fks x) -> t_name (f_ref f) <> nm x ->
+    Lemma decl_key_lt x f : In x cs -> In f (added_fks x) -> qn (f_ref f) <> nm x ->
       sorted_idx sorted (t_name (f_ref f)) < sort_key sorted x.
     Proof.
       intros Hx Hf Hn. pose proof (ptr_false x f Hx (added_sub_change x f Hf) Hn) as Hp.
@@ -545,6 +544,10 @@ Section WithWF.
       - apply (deps_of_modify cs t tcs f Hx Hf Hp).
     Qed.
 
+    (* the index map goes by name: two tables of one name (in two schemas) share their index *)
+    Lemma key_qn a b : qn a = qn b -> sorted_idx sorted (t_name a) = sorted_idx sorted (t_name b).
+    Proof. intros H. rewrite (qn_name a b H). reflexivity. Qed.
+
     Lemma acyc_edges x y : In x cs -> In y cs -> x <> y -> dependsOn x y = true -> ra y < ra x.
     Proof.
       intros Hx Hy Hne Hd.
@@ -552,38 +555,41 @@ Section WithWF.
       destruct x as [t1 f1|t1 f1|t1 tcs1]; destruct y as [t2 f2|t2 f2|t2 tcs2]; simpl in Hd; try discriminate.
       - (* Add / Add *)
         apply refTo_ex in Hd. destruct Hd as [f [Hf Hr]].
-        assert (Hlt := decl_key_lt (AddTable t1 f1) f Hx Hf). simpl in Hlt.
-        unfold ra, sort_key. simpl. simpl in Hnn. rewrite <- Hr. rewrite Hr in Hlt. specialize (Hlt (fun E => Hnn (eq_sym E))).
-        unfold sort_key in Hlt. simpl in Hlt. rewrite Hr. lia.
+        assert (Hlt := decl_key_lt (AddTable t1 f1) f Hx Hf). unfold nm in Hlt, Hnn. simpl in Hlt, Hnn.
+        rewrite Hr in Hlt. specialize (Hlt (fun E => Hnn (eq_sym E))).
+        rewrite (key_qn _ _ Hr) in Hlt.
+        unfold ra, sort_key in *. simpl in *. lia.
       - (* Add / Drop: recreation *)
-        apply Nat.eqb_eq in Hd. simpl in Hnn. contradiction.
+        apply same_table_qn in Hd. unfold nm in Hnn. simpl in Hnn. contradiction.
       - (* Add / Modify *)
         apply andb_true_iff in Hd. destruct Hd as [_ Hd].
         apply refTo_ex in Hd. destruct Hd as [f [Hf Hr]].
-        assert (Hlt := decl_key_lt (AddTable t1 f1) f Hx Hf). simpl in Hlt. simpl in Hnn.
+        assert (Hlt := decl_key_lt (AddTable t1 f1) f Hx Hf). unfold nm in Hlt, Hnn. simpl in Hlt, Hnn.
         rewrite Hr in Hlt. specialize (Hlt (fun E => Hnn (eq_sym E))).
+        rewrite (key_qn _ _ Hr) in Hlt.
         unfold ra, sort_key in *. simpl in *. lia.
       - (* Drop / Drop *)
         apply refTo_ex in Hd. destruct Hd as [f [Hf Hr]].
         assert (Hdr : isDropped cs (f_ref f) = true).
-        { apply isDropped_iff. rewrite Hr. apply in_drops_iff. exists t1, f1. split; [exact Hx|reflexivity]. }
+        { apply isDropped_qn. rewrite Hr. apply in_drops_iff. exists t1, f1. split; [exact Hx|reflexivity]. }
         pose proof (deps_of_drop cs t2 f2 f Hy Hf Hdr) as Hin.
-        rewrite (wf_child cs HWF t2 f2 f Hy Hf), Hr in Hin. apply idx_lt in Hin.
+        rewrite (qn_name _ _ (wf_child cs HWF t2 f2 f Hy Hf)), (qn_name _ _ Hr) in Hin. apply idx_lt in Hin.
         unfold ra, sort_key. simpl. lia.
       - (* Drop / Modify *)
         unfold ra. simpl. pose proof (key_bound (ModifyTable t2 tcs2)). unfold Koff. lia.
       - (* Modify / Add *)
         apply orb_true_iff in Hd. destruct Hd as [Hd|Hd].
-        + apply Nat.eqb_eq in Hd. simpl in Hnn. contradiction.
+        + apply same_table_qn in Hd. unfold nm in Hnn. simpl in Hnn. contradiction.
         + apply existsb_exists in Hd. destruct Hd as [tc [Htc Hd]].
-          assert (Hex : exists f, In f (tc_added tc) /\ t_name (f_ref f) = t_name t2).
-          { destruct tc as [f| |from to|]; try discriminate; apply Nat.eqb_eq in Hd;
+          assert (Hex : exists f, In f (tc_added tc) /\ qn (f_ref f) = qn t2).
+          { destruct tc as [f| |from to|]; try discriminate; apply same_table_qn in Hd;
               eexists; (split; [left; reflexivity|exact Hd]). }
           destruct Hex as [f [Hftc Hd']]. clear Hd. rename Hd' into Hd.
           assert (Hf : In f (added_fks (ModifyTable t1 tcs1))).
           { simpl. apply in_flat_map. exists tc. split; [exact Htc|exact Hftc]. }
-          assert (Hlt := decl_key_lt (ModifyTable t1 tcs1) f Hx Hf). simpl in Hlt. simpl in Hnn.
+          assert (Hlt := decl_key_lt (ModifyTable t1 tcs1) f Hx Hf). unfold nm in Hlt, Hnn. simpl in Hlt, Hnn.
           rewrite Hd in Hlt. specialize (Hlt (fun E => Hnn (eq_sym E))).
+          rewrite (key_qn _ _ Hd) in Hlt.
           unfold ra, sort_key in *. simpl in *. lia.
     Qed.
 
@@ -626,11 +632,11 @@ Section WithWF.
         + intros Hd. apply (proj1 (fm_in _ _)) in Hd. apply (wf_decl cs HWF x f Hx Hf Hd).
         + destruct (cn_parent c cs Hcons x f Hx Hf) as [H|H]; [left; exact H|right].
           apply in_adds_iff in H. destruct H as [t' [fks' [Hy Hn]]].
-          destruct (Nat.eq_dec (t_name (f_ref f)) (nm x)) as [E|E].
+          destruct (Nat.eq_dec (qn (f_ref f)) (nm x)) as [E|E].
           * right. assert (Exy : AddTable t' fks' = x) by (apply names_inj; [assumption|assumption|unfold nm in *; simpl; congruence]).
-            subst x. simpl. simpl in E. rewrite E. reflexivity.
+            subst x. simpl. unfold nm in E. simpl in E. rewrite E. reflexivity.
           * left. left. exists (AddTable t' fks'). split; [apply inP; exact Hy|]. split; [simpl; rewrite Hn; reflexivity|].
-            pose proof (decl_key_lt x f Hx Hf E) as Hlt. unfold ra, sort_key at 1. simpl. rewrite Hn.
+            pose proof (decl_key_lt x f Hx Hf E) as Hlt. unfold ra, sort_key at 1. simpl. rewrite (key_qn _ _ Hn).
             destruct (is_drop x) eqn:Ed; [|lia]. destruct x; simpl in Hf; try discriminate. destruct Hf.
       - (* modified tables *)
         intros t tcs Hx. apply (proj1 (inP _)) in Hx. split.
@@ -645,9 +651,10 @@ Section WithWF.
         exists y. split; [apply inP; exact Hy|].
         destruct y as [t fks0|t fks0|t tcs]; simpl in Hcov; [destruct Hcov| |].
         * destruct Hcov as [f [Hf [Hs Hr]]]. unfold nm in Hny; simpl in Hny. split; [simpl; apply Nat.eqb_eq; exact Hny|].
-          assert (Hdr : isDropped cs (f_ref f) = true) by (apply isDropped_iff; rewrite Hr; exact Hpd).
+          assert (Hdr : isDropped cs (f_ref f) = true) by (apply isDropped_qn; rewrite Hr; exact Hpd).
           pose proof (deps_of_drop cs t fks0 f Hy Hf Hdr) as Hin.
-          rewrite (wf_child cs HWF t fks0 f Hy Hf), Hr, Hp in Hin. apply idx_lt in Hin.
+          assert (Hrp : qn (f_ref f) = qn p) by (rewrite Hr, Hp; reflexivity).
+          rewrite (qn_name _ _ (wf_child cs HWF t fks0 f Hy Hf)), (qn_name _ _ Hrp) in Hin. apply idx_lt in Hin.
           unfold ra, sort_key. simpl. lia.
         * unfold nm in Hny; simpl in Hny. split; [simpl; rewrite Hcov; rewrite (proj2 (Nat.eqb_eq _ _) Hny); reflexivity|].
           unfold ra. simpl. pose proof (key_bound (ModifyTable t tcs)). unfold Koff. lia.
@@ -915,7 +922,7 @@ Proof.
 Qed.
 
 Lemma adds_unique l t1 f1 t2 f2 :
-  NoDup (flat_map adds l) -> In (AddTable t1 f1) l -> In (AddTable t2 f2) l -> t_name t1 = t_name t2 ->
+  NoDup (flat_map adds l) -> In (AddTable t1 f1) l -> In (AddTable t2 f2) l -> qn t1 = qn t2 ->
   AddTable t1 f1 = AddTable t2 f2.
 Proof.
   induction l as [|x l IH]; intros Hn H1 H2 He; [destruct H1|].
@@ -927,7 +934,7 @@ Proof.
 Qed.
 
 Lemma drops_unique l t1 f1 t2 f2 :
-  NoDup (flat_map drops l) -> In (DropTable t1 f1) l -> In (DropTable t2 f2) l -> t_name t1 = t_name t2 ->
+  NoDup (flat_map drops l) -> In (DropTable t1 f1) l -> In (DropTable t2 f2) l -> qn t1 = qn t2 ->
   DropTable t1 f1 = DropTable t2 f2.
 Proof.
   induction l as [|x l IH]; intros Hn H1 H2 He; [destruct H1|].
@@ -940,13 +947,13 @@ Qed.
 
 (* a ModifyTable that declares a key to a table depends on the creation of that table *)
 Lemma modify_depends_on_add t tcs f t2 fks2 :
-  In f (flat_map tc_added tcs) -> t_name (f_ref f) = t_name t2 ->
+  In f (flat_map tc_added tcs) -> qn (f_ref f) = qn t2 ->
   dependsOn (ModifyTable t tcs) (AddTable t2 fks2) = true.
 Proof.
   intros Hf Hn. simpl. apply orb_true_iff. right. apply existsb_exists.
   apply in_flat_map in Hf. destruct Hf as [tc [Htc Hf]]. exists tc. split; [exact Htc|].
   destruct tc as [g|g|from to|k]; simpl in Hf; try (destruct Hf; fail); destruct Hf as [<-|[]];
-    apply Nat.eqb_eq; exact Hn.
+    apply same_table_qn; exact Hn.
 Qed.
 
 (* rank witnessing that dependsOn is acyclic on a detached plan *)
@@ -957,8 +964,8 @@ Definition rho_c (x : change) : nat :=
 Definition pkeys (src : change) : list (nat * nat) :=
   match src with
   | AddTable _ _ => []
-  | DropTable t fks => map (pair (t_name t)) (map f_sym (ext_of t fks))
-  | ModifyTable t tcs => map (pair (t_name t)) (flat_map tc_rm tcs)
+  | DropTable t fks => map (pair (qn t)) (map f_sym (ext_of t fks))
+  | ModifyTable t tcs => map (pair (qn t)) (flat_map tc_rm tcs)
   end.
 
 Lemma tc_rm_mapdrop l : flat_map tc_rm (map DropFK l) = map f_sym l.
@@ -983,14 +990,14 @@ Proof.
   - destruct (filter _ fks); reflexivity.
   - unfold ext_of. destruct (filter (fun f => negb (ptr_eqb (f_ref f) t)) fks) as [|e ext] eqn:E; [reflexivity|].
     change (flat_map rm_keys [ModifyTable t (map DropFK (e :: ext))])
-      with (map (pair (t_name t)) (flat_map tc_rm (map DropFK (e :: ext))) ++ []).
+      with (map (pair (qn t)) (flat_map tc_rm (map DropFK (e :: ext))) ++ []).
     rewrite app_nil_r. rewrite (tc_rm_mapdrop (e :: ext)). reflexivity.
   - pose proof (tc_rm_rest tcs) as Hr. unfold not_addfk in Hr.
     destruct (filter (fun c => negb (is_addfk c)) tcs) as [|e rest] eqn:E.
     + simpl in Hr. rewrite <- Hr. reflexivity.
     + rewrite <- Hr.
       change (flat_map rm_keys [ModifyTable t (e :: rest)])
-        with (map (pair (t_name t)) (flat_map tc_rm (e :: rest)) ++ []).
+        with (map (pair (qn t)) (flat_map tc_rm (e :: rest)) ++ []).
       rewrite app_nil_r. reflexivity.
 Qed.
 
@@ -1001,14 +1008,14 @@ Proof.
     assert (Hz : flat_map tc_rm (map AddFK (e :: ext)) = []).
     { apply tc_rm_addfks. intros tc Htc. apply in_map_iff in Htc. destruct Htc as [g [<- _]]. reflexivity. }
     change (flat_map rm_keys [ModifyTable t (map AddFK (e :: ext))])
-      with (map (pair (t_name t)) (flat_map tc_rm (map AddFK (e :: ext))) ++ []).
+      with (map (pair (qn t)) (flat_map tc_rm (map AddFK (e :: ext))) ++ []).
     rewrite Hz. reflexivity.
   - destruct (filter _ fks); reflexivity.
   - destruct (filter is_addfk tcs) as [|e rest] eqn:E; [reflexivity|].
     assert (Hz : flat_map tc_rm (e :: rest) = []).
     { rewrite <- E. apply tc_rm_addfks. intros tc Htc. apply filter_In in Htc. tauto. }
     change (flat_map rm_keys [ModifyTable t (e :: rest)])
-      with (map (pair (t_name t)) (flat_map tc_rm (e :: rest)) ++ []).
+      with (map (pair (qn t)) (flat_map tc_rm (e :: rest)) ++ []).
     rewrite Hz. reflexivity.
 Qed.
 
@@ -1051,7 +1058,7 @@ Section Cyclic.
 
   (* the kept foreign keys of a created / dropped table reference that table by name *)
   Lemma self_name src t fks f : In src cs -> table_of src = t -> change_fks src = fks ->
-    In f fks -> ptr_eqb (f_ref f) t = true -> t_name (f_ref f) = t_name t.
+    In f fks -> ptr_eqb (f_ref f) t = true -> qn (f_ref f) = qn t.
   Proof.
     intros Hs <- <- Hf Hp. apply (wf_ptr cs HWF src f Hs Hf Hp).
   Qed.
@@ -1069,21 +1076,22 @@ Section Cyclic.
     destruct x as [t1 f1|t1 f1|t1 tcs1]; destruct y as [t2 f2|t2 f2|t2 tcs2]; simpl in Hd; try discriminate; simpl; try lia.
     - (* Add / Add: the kept keys are self references *)
       exfalso. apply refTo_ex in Hd. destruct Hd as [f [Hf Hr]].
-      assert (Hself : t_name (f_ref f) = t_name t1).
+      assert (Hself : qn (f_ref f) = qn t1).
       { destruct Ix as [Ix|Ix]; inversion Ix; subst. destruct (H1 f Hf) as [Hin Hp].
         apply (self_name (AddTable t1 fks) t1 fks f Hsx eq_refl eq_refl Hin Hp). }
       apply Hne. apply (adds_unique L); [exact cyc_adds_nodup|exact Hx|exact Hy|congruence].
     - (* Add / Drop *)
-      exfalso. apply Nat.eqb_eq in Hd. specialize (Hsame Hd).
+      exfalso. apply same_table_qn in Hd. specialize (Hsame Hd).
       destruct Ix as [Ix|Ix]; inversion Ix; subst; destruct Iy as [Iy|Iy]; inversion Iy.
     - (* Add / Modify *)
-      exfalso. apply andb_true_iff in Hd. destruct Hd as [Hn Hd]. apply negb_true_iff in Hn. apply Nat.eqb_neq in Hn.
+      exfalso. apply andb_true_iff in Hd. destruct Hd as [Hn Hd]. apply negb_true_iff in Hn.
+      assert (Hn' : qn t1 <> qn t2) by (intros E; apply same_table_qn in E; congruence). clear Hn. rename Hn' into Hn.
       apply refTo_ex in Hd. destruct Hd as [f [Hf Hr]].
       destruct Ix as [Ix|Ix]; inversion Ix; subst. destruct (H1 f Hf) as [Hin Hp].
       pose proof (self_name (AddTable t1 fks) t1 fks f Hsx eq_refl eq_refl Hin Hp). congruence.
     - (* Drop / Drop *)
       exfalso. apply refTo_ex in Hd. destruct Hd as [f [Hf Hr]].
-      assert (Hself : t_name (f_ref f) = t_name t2).
+      assert (Hself : qn (f_ref f) = qn t2).
       { destruct Iy as [Iy|Iy]; inversion Iy; subst. destruct (H1 f Hf) as [Hin Hp].
         apply (self_name (DropTable t2 fks) t2 fks f Hsy eq_refl eq_refl Hin Hp). }
       apply Hne. apply (drops_unique L); [exact cyc_drops_nodup|exact Hx|exact Hy|congruence].
@@ -1140,7 +1148,7 @@ Section Cyclic.
     (* the creation of a table of the change set stands before any ModifyTable that declares a key to it *)
     Lemma created_before pre t tcs post f :
       out = pre ++ ModifyTable t tcs :: post -> In f (flat_map tc_added tcs) ->
-      In (t_name (f_ref f)) (flat_map adds cs) -> In (t_name (f_ref f)) (flat_map adds pre).
+      In (qn (f_ref f)) (flat_map adds cs) -> In (qn (f_ref f)) (flat_map adds pre).
     Proof.
       intros Eo Hf Ha. apply in_adds_iff in Ha. destruct Ha as [t2 [fks2 [Hin Hn]]].
       destruct (ex_planned_add cs t2 fks2 Hin) as [fks' Hy].
@@ -1195,7 +1203,7 @@ Section Cyclic.
             right. destruct (ex_planned_add cs t fks Hsrc) as [fks' Hy].
             assert (HyP : In (AddTable t fks') (partition_changes L)) by (apply partition_in; exact Hy).
             assert (Hdep : dependsOn (ModifyTable t (map AddFK (ext_of t fks))) (AddTable t fks') = true).
-            { unfold dependsOn, same_table. rewrite Nat.eqb_refl. reflexivity. }
+            { unfold dependsOn, same_table. rewrite !Nat.eqb_refl. reflexivity. }
             pose proof (Hdeps pre _ post (AddTable t fks') Eo HyP ltac:(discriminate) Hdep) as Hpre.
             apply in_adds_iff. exists t, fks'. split; [exact Hpre|reflexivity].
           * left. apply (cn_mods c cs Hcons t tcs0 Hsrc).
@@ -1387,11 +1395,11 @@ Proof.
       simpl. apply Permutation_refl.
   - assert (E1 : flat_map decl (match filter (fun c => negb (is_addfk c)) tcs with
                                | [] => [] | _ :: _ => [ModifyTable t (filter (fun c => negb (is_addfk c)) tcs)] end)
-                 = map (fk_entry (t_name t)) (flat_map tc_added (filter (fun c => negb (is_addfk c)) tcs))).
+                 = map (fk_entry (qn t)) (flat_map tc_added (filter (fun c => negb (is_addfk c)) tcs))).
     { destruct (filter (fun c => negb (is_addfk c)) tcs); [reflexivity|]. unfold decl. simpl. rewrite app_nil_r. reflexivity. }
     assert (E2 : flat_map decl (match filter is_addfk tcs with
                                | [] => [] | _ :: _ => [ModifyTable t (filter is_addfk tcs)] end)
-                 = map (fk_entry (t_name t)) (flat_map tc_added (filter is_addfk tcs))).
+                 = map (fk_entry (qn t)) (flat_map tc_added (filter is_addfk tcs))).
     { destruct (filter is_addfk tcs); [reflexivity|]. unfold decl. simpl. rewrite app_nil_r. reflexivity. }
     unfold decl in E1, E2. rewrite E1, E2. unfold nm. simpl.
     rewrite <- map_app, <- flat_map_app. apply Permutation_map. apply Permutation_flat_map.
